@@ -209,10 +209,10 @@ type Comp struct {
 var staticNames = []string{"Empty", "Text", "TextExpr", "MultiLineExpr", "EscText", "Attrs", "ClassAttr", "StyleAttr", "StyleForms", "Href",
 	"OnClick", "ScriptCall", "ScriptElem", "RawElems", "Nav", "Layout", "Page", "IfElse", "ForLoop", "Switch", "Wrap", "UseWrap",
 	"NestedFail", "ManyTiny", "Flushy", "Joiny", "Oncey", "Rawy", "Funcy", "GoHTML", "ToGoHTML", "JSONy", "SubBox", "UseMethod",
-	"Deep", "SideSmall", "SideLarge", "SideTwice", "LongStatic", "LongMixed", "LongBoundary", "DevA", "DevB",
+	"Deep", "LegacyBody", "LegacyNested", "LegacyLast", "CancelMiddle", "ManualSeq", "BareManual", "SideSmall", "SideLarge", "SideTwice", "LongStatic", "LongMixed", "LongBoundary", "DevA", "DevB",
 	"BareJoin", "BareOnce", "BareFlush", "SlotRoot", "NonceScripts", "NonceOnClick", "BareRaw", "BareScript"}
 
-var variedNames = []string{"EscText", "Attrs", "ClassAttr", "Href", "Nav", "Page", "IfElse", "ForLoop", "Switch", "OnClick", "BareJoin"}
+var variedNames = []string{"LegacyNested", "EscText", "Attrs", "ClassAttr", "Href", "Nav", "Page", "IfElse", "ForLoop", "Switch", "OnClick", "BareJoin"}
 
 // StaticComps lists the hand-written roots (with their argument vectors).
 func StaticComps() []Comp {
@@ -296,6 +296,7 @@ type ErrFacts struct {
 	IsShort    bool   `json:"short,omitempty"`
 	IsCanceled bool   `json:"canc,omitempty"`
 	IsSentinel bool   `json:"sent,omitempty"`
+	IsDeadline bool   `json:"deadline,omitempty"`
 	Panic      bool   `json:"panic,omitempty"`
 	AsTempl    bool   `json:"astempl,omitempty"`
 	File       string `json:"file,omitempty"`
@@ -321,6 +322,15 @@ func (o *Out) Bytes() []byte {
 	return b
 }
 
+// InnerRec mirrors the driver's record of one inner Render call made by a
+// hand-written middle component.
+type InnerRec struct {
+	ID    string    `json:"id"`
+	Done  string    `json:"done,omitempty"`
+	Err   *ErrFacts `json:"e,omitempty"`
+	Added int       `json:"added"`
+}
+
 type PoolEv struct {
 	Gets      int64    `json:"gets"`
 	Puts      int64    `json:"puts"`
@@ -333,30 +343,31 @@ type PoolEv struct {
 }
 
 type Event struct {
-	Ev    string   `json:"ev"`
-	Tag   string   `json:"tag,omitempty"`
-	Key   string   `json:"key,omitempty"`
-	Ver   int      `json:"ver,omitempty"`
-	Kind  string   `json:"kind,omitempty"`
-	K     int      `json:"k,omitempty"`
-	Fail  string   `json:"fail,omitempty"`
-	Site  string   `json:"site,omitempty"`
-	Out   *Out     `json:"out,omitempty"`
-	C1    *Out     `json:"c1,omitempty"`
-	C2    *Out     `json:"c2,omitempty"`
-	Trace []string `json:"trace,omitempty"`
-	G     int      `json:"g,omitempty"`
-	I     int      `json:"i,omitempty"`
-	Flush int      `json:"flush,omitempty"`
-	Pool  *PoolEv  `json:"pool,omitempty"`
-	Msg   string   `json:"msg,omitempty"`
-	Code  int      `json:"code,omitempty"`
-	CT    string   `json:"ct,omitempty"`
-	Opt   string   `json:"opt,omitempty"`
-	T0    int64    `json:"t0,omitempty"`
-	T1    int64    `json:"t1,omitempty"`
-	Side  *Out     `json:"side,omitempty"`
-	Sinks []*Out   `json:"sinks,omitempty"`
+	Ev    string     `json:"ev"`
+	Tag   string     `json:"tag,omitempty"`
+	Key   string     `json:"key,omitempty"`
+	Ver   int        `json:"ver,omitempty"`
+	Kind  string     `json:"kind,omitempty"`
+	K     int        `json:"k,omitempty"`
+	Fail  string     `json:"fail,omitempty"`
+	Site  string     `json:"site,omitempty"`
+	Out   *Out       `json:"out,omitempty"`
+	C1    *Out       `json:"c1,omitempty"`
+	C2    *Out       `json:"c2,omitempty"`
+	Trace []string   `json:"trace,omitempty"`
+	G     int        `json:"g,omitempty"`
+	I     int        `json:"i,omitempty"`
+	Flush int        `json:"flush,omitempty"`
+	Pool  *PoolEv    `json:"pool,omitempty"`
+	Msg   string     `json:"msg,omitempty"`
+	Code  int        `json:"code,omitempty"`
+	CT    string     `json:"ct,omitempty"`
+	Opt   string     `json:"opt,omitempty"`
+	T0    int64      `json:"t0,omitempty"`
+	T1    int64      `json:"t1,omitempty"`
+	Inner []InnerRec `json:"inner,omitempty"`
+	Side  *Out       `json:"side,omitempty"`
+	Sinks []*Out     `json:"sinks,omitempty"`
 }
 
 // Job mirrors the driver's job line.
